@@ -32,6 +32,9 @@ class Balancer:
             self.sat = False
         except BackendError:
             log.debug("Backend error in balancer.", exc_info=True)
+        except ClaripyBalancerError:
+            # an expression shape the balancer cannot handle: no bounds, but no reason to consider it unsat either
+            log.debug("Balancer error in balancer.", exc_info=True)
 
     @property
     def compat_ret(self):
